@@ -130,7 +130,10 @@ def runStep (s : RunSt) (line : String) : RunSt × String :=
         let (filep, laws) := runPure t0 segs
         let main := fmtObs full fails file ""
         let pure := fmtObs full fails filep ""
-        let tail := (if main == pure then "" else " PURE-DIFF") ++
+        -- the law / purity diagnostics are part of the answer only OUTSIDE the class where the laws are known
+        -- to fail on the real tree (finding F15c); there the harness never prints them, so they show as a diff
+        let inClass := deepFanout s.thr (s.known ++ (external recs).map (·.url)) || hasBadUrl recs
+        let tail := if inClass then "" else (if main == pure then "" else " PURE-DIFF") ++
           (if laws.isEmpty then "" else " LAW-FAIL:" ++ ",".intercalate (dedupS laws))
         (s, if nondet then "nondet" else main ++ tail)
     | _, _ => (s, "bad-op")
